@@ -16,7 +16,7 @@ def jobs(tier, seed):
     import random
     rnd = random.Random(seed); q_ = tier == 'quick'; J = []
     W = 10
-    exps = [0, 1, 54, 500, 1022, 1023, 1075, 1076, 1500, 2046] if q_ else sorted(set([0, 1, 2, 54, 1022, 1023, 1024, 1074, 1075, 1076, 1077, 2045, 2046] + list(range(8, 2047, 24))))
+    exps = [0, 1, 54, 500, 1022, 1023, 1075, 1076, 1078, 1081, 1500, 2046] if q_ else sorted(set([0, 1, 2, 54, 1022, 1023, 1024, 1074, 1075, 1076, 1077, 2045, 2046] + list(range(8, 2047, 24))))
     for bexp in exps:
         q = (bexp if bexp else 1) - 1075
         lo = min(kk(bexp, True), kk(bexp, False))
